@@ -18,6 +18,7 @@ struct GEdge {
     unsigned i, j;
     long long x;
     bool remove = false; // `op r i j`: removeEdge(i, j) at this point of the construction (graphs with a removal history)
+    bool set = false;    // `op w i j x`: setEdgeWeight / setEdgeMultiplicity(i, j, value) (creates or updates), setEdgeLabel on a present edge
     bool force = false;  // `op f i j x`: addEdge(..., force=true): a duplicate entry in the neighbour lists (labelled classes)
 };
 
@@ -110,6 +111,11 @@ inline GSpec parseGSpec(const Case &c, bool directed) {
             for (unsigned long long k = 1; k <= op.u(0) && k < s.n; ++k)
                 for (unsigned i = 0; i < s.n; ++i)
                     s.edges.push_back(GEdge{i, (unsigned)((i + k) % s.n), op.i(1) + (long long)((i + k) % 7)});
+        if (op.kind == "w" && s.n > 0) {
+            GEdge w{(unsigned)(op.u(0) % s.n), (unsigned)(op.u(1) % s.n), op.i(2)};
+            w.set = true;
+            s.edges.push_back(w);
+        }
         if (op.kind == "r" && s.n > 0) {
             GEdge r{(unsigned)(op.u(0) % s.n), (unsigned)(op.u(1) % s.n), 0};
             r.remove = true;
@@ -160,6 +166,37 @@ void buildGraph(const GSpec &s, const std::string &wmode, G &g, Model &m) {
             else
                 g.removeEdge(e.i, e.j);
             m.e.erase(k);
+            continue;
+        }
+        if (e.set) {
+            // value set through the setter, in the orientation given
+            if constexpr (T::fam == 'W') {
+                double w = weightOf(x, wmode);
+                g.setEdgeWeight(e.i, e.j, w);
+                if (!present) {
+                    MVal v;
+                    v.copies = 1;
+                    m.e[k] = v;
+                }
+                m.e[k].w = w;
+            } else if constexpr (T::fam == 'M') {
+                unsigned mult = (unsigned)(1 + x % 3);
+                if (present && m.e[k].copies > 1)
+                    continue;
+                g.setEdgeMultiplicity(e.i, e.j, mult);
+                if (!present) {
+                    MVal v;
+                    v.copies = 1;
+                    m.e[k] = v;
+                }
+                m.e[k].k = mult;
+            } else if constexpr (!T::nolabel) {
+                if (present) {
+                    long long lab = x % LABEL_K;
+                    g.setEdgeLabel(e.i, e.j, LabelCodec<typename T::Label>::mk((int)lab));
+                    m.e[k].k = lab;
+                }
+            }
             continue;
         }
         if constexpr (T::fam == 'L') {
